@@ -934,6 +934,24 @@ def pub_cancel(rng, i):
     return {"kind": "pubflags-cancel", "cfg": cfg, "steps": steps}
 
 
+def open_then_eof(rng, i):
+    """The server completes the handshake and hangs up right behind Connection.OpenOk (same burst).  Whether
+    the open still succeeds or not, nobody may be left waiting: the first call fails promptly and close
+    reports the lost socket."""
+    if i % 2 == 0:
+        # nothing is written by the client: an idle waiter (the connection-blocked listener) must be released
+        steps = [{"do": "listen", "h": "conn", "what": "blocked", "as": "BL"}, {"do": "drain", "l": "BL"}]
+    else:
+        steps = [{"do": "open", "as": "A", "req": rng.choice([1, 5])}]
+        if rng.random() < 0.5:
+            steps.append({"do": "open", "as": "B"})
+    steps.append({"do": "closeconn"})
+    cfg = {"eof_after_openok": True}
+    if rng.random() < 0.5:
+        cfg["read_cycle"] = [rng.choice([1, 7, 8, 100])]
+    return {"kind": "crash-open-eof", "fault": "eof-behind-openok", "at": i, "cfg": cfg, "steps": steps}
+
+
 def backlog(rng, i):
     """More than a megabyte queued behind a stalled transport, then drained by short writes that
     never block again (large accepts, but smaller than the backlog)."""
@@ -1327,7 +1345,7 @@ def batches(rng, maxlen, bases, reps=1):
     return res
 
 
-FAMILIES = {"pub_cancel": pub_cancel, "cancel_close_race": cancel_close_race, "close_window": close_window, "pressure": pressure, "midframe_close": midframe_close, "undrained": undrained, "connclose_cross": connclose_cross, "reply_then_close": reply_then_close, "chclose_cross": chclose_cross, "listener_split": listener_split, "mixed": mixed, "pubflags": pubflags, "backlog": backlog, "hb_silence": hb_silence, "listener_cross": listener_cross, "close_slow": close_slow, "consumer_drop": consumer_drop, "rpc": rpc, "content": content, "consumer": consumer, "listeners": listeners,
+FAMILIES = {"open_then_eof": open_then_eof, "pub_cancel": pub_cancel, "cancel_close_race": cancel_close_race, "close_window": close_window, "pressure": pressure, "midframe_close": midframe_close, "undrained": undrained, "connclose_cross": connclose_cross, "reply_then_close": reply_then_close, "chclose_cross": chclose_cross, "listener_split": listener_split, "mixed": mixed, "pubflags": pubflags, "backlog": backlog, "hb_silence": hb_silence, "listener_cross": listener_cross, "close_slow": close_slow, "consumer_drop": consumer_drop, "rpc": rpc, "content": content, "consumer": consumer, "listeners": listeners,
             "connclose": connclose, "chanclose": chanclose}
 
 
